@@ -5,6 +5,7 @@ package w18
 
 import (
 	"fmt"
+	"sort"
 	"strings"
 
 	"github.com/openconfig/goyang/pkg/yang"
@@ -243,6 +244,25 @@ func Run(j *job.Job, s *job.Sink) {
 						fresh.Parse(gd.Text, gd.Name)
 					}
 					batch := dump.Set(fresh, fresh.Process(), true)
+					// quiescent-point snapshots of the set's unexported tables (verif hook
+					// accessors): typedef dictionary, identity dictionary, module tables
+					snap := func(m *yang.Modules) string {
+						var mk []string
+						for k := range m.Modules {
+							mk = append(mk, "M "+k)
+						}
+						for k := range m.SubModules {
+							mk = append(mk, "S "+k)
+						}
+						sort.Strings(mk)
+						return strings.Join(mk, "\n") + "\n-- typedefs\n" + strings.Join(m.VerifTypedefKeys(), "\n") + "\n-- identities\n" + strings.Join(m.VerifIdentityKeys(), "\n")
+					}
+					s.Count("table_snapshots_compared", 1)
+					if ls, bs := snap(ms), snap(fresh); ls != bs {
+						l, b := firstDiff(ls, bs)
+						bad("tables-differ-from-batch", fmt.Sprintf("after step %d: live set has %q, batch set %q", step, clip(l, 160), clip(b, 160)), map[string]any{"failed_loads_before": failedLoads})
+						return
+					}
 					if live != batch {
 						l, b := firstDiff(live, batch)
 						class := "differs-from-batch"
